@@ -898,9 +898,16 @@ def run_proc(argv, line, env, timeout):
 
 def big_cases(rng, quick):
     """inputs large enough to reach the checkpoints that fire only every 100000 chain overlaps (MCIndexNoder, EdgeSetIntersector)"""
-    n = 320
-    H = [('LineString', [(0, i), (n + 1, i)]) for i in range(1, n + 1)]; V = [('LineString', [(i, 0), (i, n + 1)]) for i in range(1, n + 1)]
-    out = [dict(op='node', p1=0.0, p2=0, A=('MultiLineString', H + V), B=None, tag='grid %dx%d (>100000 chain overlaps)' % (n, n), big=True)]
+    def grid(n):
+        return [('LineString', [(0, i), (n + 1, i)]) for i in range(1, n + 1)], [('LineString', [(i, 0), (i, n + 1)]) for i in range(1, n + 1)]
+    out = []
+    # GEOSNode_r iterates its noder: a grid of n x n crossing lines has n^2 chain overlaps in the first pass and several times more in the later passes
+    # (the lines are split), so the every-100000 checkpoint is polled in pass >= 2 from about 130 x 130 on and in every pass from 317 x 317 on.
+    # EVERY poll of these cases is enumerated (quick: two mid-size grids; thorough: also the 320 x 320 one).
+    for n in ([rng.randrange(150, 190), rng.randrange(220, 250)] if quick else [rng.randrange(150, 190), rng.randrange(220, 250), 320]):
+        H, V = grid(n)
+        out.append(dict(op='node', p1=0.0, p2=0, A=('MultiLineString', H + V), B=None, tag='grid %dx%d (>100000 chain overlaps in the later noding passes)' % (n, n), big=True))
+    n = 320; H, V = grid(n)
     # one long zigzag (every segment is its own monotone chain, neighbours overlap: > 100000 chain overlaps in EVERY noding pass that sees it --
     # the overlay noding pass, its validation pass, snap-rounding, the validity / simplicity noders, the buffer noder) and a short crossing line
     m = 110000 + rng.randrange(0, 20000)
@@ -1051,9 +1058,8 @@ def run(ctx):
         # time budget per case: an interrupted run plus a full re-run plus a leak check per k
         ms = int(d.get('ms', '0') or 0)
         kmax = max(24, int((45000 if ctx.quick else 150000) / (2.2 * ms + 12)))
-        # big inputs have few polls: enumerate them all (the grid noding case only at first / second / middle / last poll in quick)
-        ks = choose_ks(d['N'], min(cap, kmax), ctx.rng) if not c.get('big') else \
-            (sorted(set([1, 2, d['N'] // 2 + 1, d['N']]) & set(range(1, d['N'] + 1))) if (ctx.quick and c['op'] == 'node') else choose_ks(d['N'], 24, ctx.rng))
+        # big inputs have few polls: enumerate them all
+        ks = choose_ks(d['N'], min(cap, kmax), ctx.rng) if not c.get('big') else choose_ks(d['N'], 24, ctx.rng)
         if len(ks) < min(d['N'], cap): dist.setdefault('sub-sampled', {})[c['op']] = dist.setdefault('sub-sampled', {}).get(c['op'], 0) + 1
         plan.append((i, c, ks))
     # ---------------- phase 2: fault enumeration, one child process per case
@@ -1303,7 +1309,7 @@ def run(ctx):
     for v in viol:
         kk = (v['case']['op'], v['kind'])
         seen_kinds[kk] = seen_kinds.get(kk, 0) + 1
-        if seen_kinds[kk] > 1 or len(ctx.violations) >= 8:
+        if seen_kinds[kk] > 3 or len(ctx.violations) >= 10:      # up to three replays per (operation, kind of failure)
             continue
         c = v['case']
         shr = None
